@@ -269,9 +269,40 @@ func c02GrowthGuardedBy(s *c02Sim, fl c02FrameLoop, growth ssa.Instruction, atom
 	return !hit, s.exhausted
 }
 
-func c02Q4RoundChange(c *rt.Ctx) {
-	fn := c.Fn(c02P + ".isJustifiedRoundChange")
+// c02Q4Predicate finds the predicate deciding the justification of messages of type typConst: the function of that
+// name, or — when it was renamed or written inline in the dispatcher — isJustified itself explored under the standing
+// assumption "msg.Type() == typConst" (the dispatch on the type is then followed into whatever it calls).
+func c02Q4Predicate(c *rt.Ctx, name, typConst string) (*ssa.Function, *ssa.Parameter, func(s *c02Sim)) {
+	if fn := c.FnOpt(c02P + "." + name); fn != nil {
+		return fn, c02ParamOfType(c, fn, c02P+".Msg"), func(*c02Sim) {}
+	}
+	fn := c.Fn(c02P + ".isJustified")
 	msg := c02ParamOfType(c, fn, c02P+".Msg")
+	wantT := constOf(c, c02P, typConst)
+	return fn, msg, func(s *c02Sim) {
+		s.pre = func(v ssa.Value, f *c02Frame, st *c02State) (bool, bool) {
+			bin, ok := v.(*ssa.BinOp)
+			if !ok || (bin.Op != token.EQL && bin.Op != token.NEQ) {
+				return false, false
+			}
+			x, y := bin.X, bin.Y
+			if !s.msgCallOn(x, f, st, "Type", msg) {
+				x, y = y, x
+			}
+			if !s.msgCallOn(x, f, st, "Type", msg) {
+				return false, false
+			}
+			n, isC := an.ConstInt(s.rootOf(y, f, st).V)
+			if !isC {
+				return false, false
+			}
+			return (n == wantT) == (bin.Op == token.EQL), true
+		}
+	}
+}
+
+func c02Q4RoundChange(c *rt.Ctx) {
+	fn, msg, assume := c02Q4Predicate(c, "isJustifiedRoundChange", "MsgRoundChange")
 	prepareT := constOf(c, c02P, "MsgPrepare")
 	resIdx := c02BoolResult(fn)
 	if resIdx < 0 {
@@ -279,6 +310,7 @@ func c02Q4RoundChange(c *rt.Ctx) {
 	}
 	s := c02NewSim(fn)
 	s.opaque = c02BaseOpaque
+	assume(s)
 	s.discover()
 	if s.exhausted {
 		c.Bail("isJustifiedRoundChange: " + c02Undecided)
@@ -428,8 +460,7 @@ func (s *c02Sim) filterSpec(v ssa.Value, f *c02Frame, depth int) (c02FilterSpecV
 }
 
 func c02Q4Decided(c *rt.Ctx) {
-	fn := c.Fn(c02P + ".isJustifiedDecided")
-	msg := c02ParamOfType(c, fn, c02P+".Msg")
+	fn, msg, assume := c02Q4Predicate(c, "isJustifiedDecided", "MsgDecided")
 	commitT := constOf(c, c02P, "MsgCommit")
 	resIdx := c02BoolResult(fn)
 	if resIdx < 0 {
@@ -437,6 +468,7 @@ func c02Q4Decided(c *rt.Ctx) {
 	}
 	s := c02NewSim(fn)
 	s.opaque = c02BaseOpaque
+	assume(s)
 	s.discover()
 	if s.exhausted {
 		c.Bail("isJustifiedDecided: " + c02Undecided)
@@ -762,6 +794,29 @@ func c02Q4PrePrepare(c *rt.Ctx) {
 			return false, false
 		}
 		return false, true
+	}
+	// the ROUND-CHANGE quorum test may have been written inline in the predicate (no containsJustifiedQrc call, but a
+	// comparison against Quorum() in the code explored): the rule cannot name its verdict, which is not a missing test
+	{
+		n, inline := 0, false
+		for _, f := range s.allFrames() {
+			for _, in := range an.Instrs(f.fn, false) {
+				if call, ok := in.(*ssa.Call); ok && isQrcCall(call, f, nil) {
+					n++
+				}
+				if bin, ok := in.(*ssa.BinOp); ok && c02IsCmp(bin.Op) {
+					if _, k, _, isT := c02QuorumCmp(bin); isT && k == "quorum" {
+						inline = true
+					}
+				}
+			}
+		}
+		if n == 0 && inline {
+			why := "no containsJustifiedQrc(d, msg.Justification(), msg.Round()) call found; a quorum comparison is made in the predicate itself (algorithm 4:1 written inline), whose outcome the rule cannot name"
+			c.Unsure("isJustifiedPrePrepare round justification", pos, why)
+			c.Unsure("isJustifiedPrePrepare proposes the justified prepared value", pos, why)
+			return
+		}
 	}
 	verdict("isJustifiedPrePrepare round justification",
 		"an accepting return is reachable without round == 1, round == compareFailureRound+1 or a justified quorum of ROUND-CHANGEs",
